@@ -445,21 +445,21 @@ func (c07) Run(c *Ctx, i int) CaseResult {
 			res.Fails = append(res.Fails, *hf)
 		}
 	}
-	// a follow-up of the gateway's own `node` field (parent type Node) asks a service that need not own the id: `node:
+	// a follow-up of the gateway's own `node` field (parent type Node, or narrowed by a fragment on a concrete type) asks a service that need not own the id: `node:
 	// null` without an error is a legitimate answer there, and the code accepts it as one (ExecSeq.stripped, nodeParent)
 	nullAtNodeField := false
 	for _, f := range uniq {
 		if f.Kind == "node-null" && o.Plans != nil {
-			var walk func(steps []*gateway.QueryPlanStep)
-			walk = func(steps []*gateway.QueryPlanStep) {
+			var walk func(steps []*gateway.QueryPlanStep, parentIsGateway bool)
+			walk = func(steps []*gateway.QueryPlanStep, parentIsGateway bool) {
 				for _, st := range steps {
-					if st.ParentType == "Node" && StepURL(st) == f.Service {
+					if (st.ParentType == "Node" || parentIsGateway) && StepURL(st) == f.Service {
 						nullAtNodeField = true
 					}
-					walk(st.Then)
+					walk(st.Then, StepURL(st) == "GW")
 				}
 			}
-			walk(o.Plans[0].RootStep.Then)
+			walk(o.Plans[0].RootStep.Then, false)
 		}
 	}
 	if shapes > 0 && injectedErrs == 0 && o.Err == nil && !nullAtNodeField {
